@@ -85,17 +85,11 @@ theorem iteration_counts {s s' : State K} {c : Choice} {it : Iteration K} (hwf :
   · rw [he] at h; cases h
   · rw [hs2] at h; cases h; exact ⟨hz, hst, hc, hn, ha, hs, hstep⟩
 
-/-- A drawn start that `WeightedIndex::new` could not produce (`none`) is the same as drawing the
-    old start: the state after the step has the alignment `stAfter`, which reads `none` as "keep". -/
-theorem start_none_keeps {s s' : State K} {c : Choice} {it : Iteration K} (hwf : D.WF K)
-    (hinv : Inv D P.w s) (hadm : Adm D P s c) (h : next D P s c = .ok (some (s', it)))
-    (hnone : c.start = none) : st s' = st s := by
-  rw [(iteration_counts hwf hinv hadm h).2.2.2.2.2.1]
-  funext i
-  unfold stAfter
-  by_cases e : i = c.z
-  · rw [if_pos e, hnone, e]; rfl
-  · rw [if_neg e]
+/-- When `WeightedIndex::new` fails the start is left unchanged: the step with `start = none` *is*
+    the step that draws the old start again (so observing the start after the step determines the
+    choice, which is how the correspondence run feeds the model). -/
+theorem start_none_is_old_start (s : State K) (z : Nat) (d : Bool) :
+    next D P s ⟨z, none, d⟩ = next D P s ⟨z, some (st s z), d⟩ := next_none_eq D P s z d
 
 /-! ### panics -/
 
